@@ -550,6 +550,8 @@ Require Verif.Tie.Parse.Semver.
 Require Verif.Tie.Parse.SemverRange.
 Require Verif.Tie.Vers.Code.
 Require Verif.Tie.Vers.Constraints.
+Require Verif.Tie.Vers.CoreAlternating.
+Require Verif.Tie.Vers.CoreGroup.
 Require Verif.Tie.Vers.Printers.
 Require Verif.Tie.Vers.Pypi.
 Require Verif.Tie.Vers.Texts.
@@ -810,6 +812,14 @@ Definition C06_tie_parseConstraints_finished := Verif.Tie.Vers.Constraints.parse
 Print Assumptions C06_tie_parseConstraints_finished.
 Definition C06_tie_parseConstraints_normalize := Verif.Tie.Vers.Constraints.parseConstraints_normalize.
 Print Assumptions C06_tie_parseConstraints_normalize.
+Definition C06_tie_alternatingIntervals_no_panic := Verif.Tie.Vers.CoreAlternating.alternatingIntervals_no_panic.
+Print Assumptions C06_tie_alternatingIntervals_no_panic.
+Definition C06_tie_alternatingIntervals_total := Verif.Tie.Vers.CoreAlternating.alternatingIntervals_total.
+Print Assumptions C06_tie_alternatingIntervals_total.
+Definition C06_tie_groupConstraintsIntoIntervals_no_panic := Verif.Tie.Vers.CoreGroup.groupConstraintsIntoIntervals_no_panic.
+Print Assumptions C06_tie_groupConstraintsIntoIntervals_no_panic.
+Definition C06_tie_groupConstraintsIntoIntervals_total := Verif.Tie.Vers.CoreGroup.groupConstraintsIntoIntervals_total.
+Print Assumptions C06_tie_groupConstraintsIntoIntervals_total.
 Definition C06_tie_alpine_printer_tie := Verif.Tie.Vers.Printers.alpine_printer_tie.
 Print Assumptions C06_tie_alpine_printer_tie.
 Definition C06_tie_cargo_printer_tie := Verif.Tie.Vers.Printers.cargo_printer_tie.
